@@ -173,11 +173,33 @@ where
             ));
         }
 
+        // The extended domain (large enough for the quotient polynomial) must fit
+        // in the 2-adic subgroup as well; `EvaluationDomain::new` asserts it.
+        let quotient_poly_degree = (cs.degree() as u64).saturating_sub(1).max(1);
+        let mut extended_k = k as u32;
+        while (1u64 << extended_k) < (1u64 << k) * quotient_poly_degree {
+            extended_k += 1;
+        }
+        if extended_k > F::S {
+            return Err(io::Error::new(
+                io::ErrorKind::InvalidData,
+                format!("circuit size value (k): {} is too large for this circuit", k),
+            ));
+        }
+
         let domain = EvaluationDomain::new(cs.degree() as u32, k.into());
 
         let mut num_fixed_columns = [0u8; 4];
         reader.read_exact(&mut num_fixed_columns)?;
         let num_fixed_columns = u32::from_le_bytes(num_fixed_columns);
+        // One commitment per fixed column, selectors included (they are turned
+        // into fixed columns). The verifier indexes them by column.
+        if num_fixed_columns as usize != cs.num_fixed_columns + cs.num_selectors {
+            return Err(io::Error::new(
+                io::ErrorKind::InvalidData,
+                "unexpected number of fixed commitments",
+            ));
+        }
 
         let fixed_commitments: Vec<_> = (0..num_fixed_columns)
             .map(|_| CS::Commitment::read(reader, format))
